@@ -315,7 +315,7 @@ func genHTTP(r *lib.Rng) Item {
 			body = []byte(v)
 			fam += "/" + f
 		case x == 3:
-			body = []byte(`{"stream":"s","destination":"` + strings.Repeat("x", 20000) + `"}`)
+			body = []byte(`{"stream":"s","junk":"` + strings.Repeat("x", 20000) + `","destination":"ws://127.0.0.1:9/h"}`)
 			fam += "/huge-body"
 		case strings.Contains(p, "streams"):
 			body = []byte(streamRule(r))
@@ -365,7 +365,7 @@ func corpus() []Session {
 	}
 	api := "ws://127.0.0.1:9/ctl/api"
 	var out []Session
-	for _, mode := range []string{"topic", "direct", "ws"} {
+	for _, mode := range []string{"topic", "direct", "ws", "ctl"} {
 		out = append(out,
 			Session{API: api, Mode: mode, Items: []Item{
 				cmd(`{"verb":"add","what":"destination","rule":{"id":"00","stream":"/video0","destination":"ws://127.0.0.1:9/in/video0"}}`, "add/destination"),
@@ -406,7 +406,7 @@ func corpus() []Session {
 		{`{"id":"h1","stream":"/video0","destination":"ws://127.0.0.1:9/in/video0"}`, "dest-rule"},
 		{`{"stream":"/stream/large","feeds":["video0","audio0"]}`, "stream-rule"},
 		{``, "empty-body"}, {`not json`, "text-body"}, {`null`, "null-body"}, {`[]`, "array-body"},
-		{`{"stream":"s","destination":"` + strings.Repeat("x", 70000) + `"}`, "huge-body"},
+		{`{"stream":"s","junk":"` + strings.Repeat("x", 70000) + `","destination":"ws://127.0.0.1:9/h"}`, "huge-body"},
 	}
 	for _, path := range []string{"/api/destinations", "/api/streams"} {
 		for _, m := range []string{"POST", "PUT", "UPDATE"} {
